@@ -30,6 +30,7 @@ Contract file directives (one per line, everything up to the next `//@` line is 
                                           impl or trait block with that header (e.g. `trait SchemeManager`,
                                           `SchemeManager for LocalSchemeManager`)
   //@ replace <count> "<old>" => "<new>" [in <qual>]     exact-match rewrite (normalisation)
+  //@ underscore-params <qual>            rename `_` parameter patterns of that fn to `_pN` (Verus rejects `_` there)
   //@ optional                            (prefix line) the next directive may miss its anchor silently
 
 Inside payloads a comment line `//# <clause-id> [TAG TAG …] free text` names the obligation that
@@ -324,6 +325,24 @@ def annotate(repo, contracts, out):
                 a, _ = cur.body_range(f)
                 text, orig = payload_text(d, clauses)
                 cur.add(a, a, '\n' + text, orig)
+                continue
+            m = re.match(r'underscore-params\s+(.+)$', head)
+            if m:
+                # N3: Verus rejects `_` as a parameter pattern; give each one a name (unused, so the same program)
+                f = cur.fn(m.group(1).strip())
+                k = 0
+                depth = 0
+                for ti in range(f.params_open + 1, f.params_close):
+                    t = cur.toks[ti]
+                    if t.kind == 'punct' and t.text in ('(', '[', '{', '<'):
+                        depth += 1
+                    elif t.kind == 'punct' and t.text in (')', ']', '}', '>'):
+                        depth -= 1
+                    elif depth == 0 and t.kind == 'id' and t.text == '_' and cur.toks[ti + 1].text == ':' \
+                            and cur.toks[ti - 1].text in ('(', ','):
+                        cur.add(t.pos, t.end, '_p%d' % k, [dict(kind='normalisation', old='_', new='_p%d' % k)])
+                        k += 1
+                notes['normalisations'].append(dict(file=cur.rel, old='_ (parameter pattern)', new='_pN', count=k, scope=f.qual))
                 continue
             m = re.match(r'replace\s+(\d+)\s+' + _q + r'\s*=>\s*' + _q + r'(?:\s+in\s+(.+))?$', head)
             if m:
